@@ -433,9 +433,6 @@ theorem C07_reject_mix_unitless (m sim : Timeline)
     (h : decide (m.unit = .unitless) ≠ decide (sim.unit = .unitless)) : makeAbstvec m sim = .error .value := by
   simp [makeAbstvec, h, bind, Except.bind, throw, throwThe, MonadExceptOf.throw]
 
-/-- the error of a result, if any -/
-def err? {α} (r : Except Err α) : Option Err := match r with | .error e => some e | .ok _ => none
-
 /-- non-vacuity of the rejections, and an accepted neighbour of each -/
 example :
     err? (validateTime ⟨"year", some (.num (Num.ofRat 2000)), some (.num (Num.ofRat 2010)), some (Num.ofRat 10), Num.ofRat 1⟩) = some .value ∧
